@@ -118,9 +118,9 @@ impl StringBuiltin {
 
     #[inline]
     pub fn to_lowercase<'arena>(s: &str, arena: &'arena Arena) -> ArenaString<'arena> {
-        let mut buffer = ArenaString::with_capacity_in(s.len(), arena);
-        s.chars().flat_map(char::to_lowercase).for_each(|ch| buffer.push(ch));
-        buffer
+        // Lowercasing is context sensitive (Greek final sigma), so map the whole
+        // string rather than one character at a time.
+        ArenaString::from_str(arena, &s.to_lowercase())
     }
 
     #[inline]
